@@ -39,6 +39,10 @@ def run(tier, seed):
     neg = [vlib.tlc_mc("MemfsConc", "MemfsConc_split.cfg", workers=4, coverage=False, expect_violation=True),
            vlib.tlc_mc("LockProto", "LockProto_nested.cfg", workers=4, coverage=False, expect_violation=True)]
     out.cov["negative_controls"] = [dict(config=c, violated=n["violated"]) for c, n in zip(["MemfsConc_split", "LockProto_nested"], neg)]
+    # the safety half of the lock protocol for behaviours of ANY length (TLC bounds the number of critical sections): Apalache discharges
+    # TypeOK /\ MutualExclusion /\ NoNestedAcquire /\ NoDeadlock as an inductive invariant of LockProtoInd (4 threads); LockProtoIndN
+    # (a thread may re-acquire a read guard) MUST be rejected.  An extra: nothing else depends on it.
+    out.cov["apalache_inductive"] = [vlib.apalache_inductive("LockProtoInd"), vlib.apalache_inductive("LockProtoIndN", expect_violation=True)]
     # (b) the real code under the controlled scheduler (hooks): guard sequence of every call alone, every interleaving of
     #     every 2-thread x 1-call program, sampled deeper programs (all their interleavings), uncontrolled stress
     sched(out, "guards", ["--mode", "guards"], nworkers=1)
